@@ -28,6 +28,7 @@ type c01Case struct {
 	Policy    string
 	HardKey   bool
 	NilParams bool
+	NilAttrs  bool `json:",omitempty"` // request parameters without client attributes (Attrs == nil)
 	ClaimUser string
 	KeyDir    string
 	Agent     string   // behaviour; "honest-with-key" / "honest-without" / adversary behaviours
@@ -69,6 +70,13 @@ func c01Params(k c01Case) *csr.ReqParam {
 	}
 	p := defaultParams(k.LogName)
 	p.NamespacePolicy = common.NamespacePolicy(k.Policy)
+	if k.NilAttrs {
+		p.Attrs = nil
+		if k.ClaimUser != "" {
+			p.ReqUser = k.ClaimUser
+		}
+		return p
+	}
 	p.Attrs.HardKey = k.HardKey
 	if k.ClaimUser != "" {
 		p.ReqUser, p.Attrs.Username = k.ClaimUser, k.ClaimUser
@@ -108,7 +116,7 @@ func c01Observe(c *ev.Ctx, k c01Case, e *genv, p *csr.ReqParam, err error, esc s
 			}
 		}
 	}
-	authOK := p != nil && p.NamespacePolicy == common.NoNamespace && !p.Attrs.HardKey && reg != nil && sigValid
+	authOK := p != nil && p.Attrs != nil && p.NamespacePolicy == common.NoNamespace && !p.Attrs.HardKey && reg != nil && sigValid
 	caCalls, adds := len(e.ca.Reqs)-caBefore, len(e.ua.Ring.AddLog)-addsBefore
 	c.Outcome(fmt.Sprintf("%s/authOK=%v/%s/ca=%d/adds=%d", tag, authOK, errType(err), caCalls, adds))
 	if authOK {
@@ -125,7 +133,12 @@ func c01Observe(c *ev.Ctx, k c01Case, e *genv, p *csr.ReqParam, err error, esc s
 		if adds > 0 {
 			c.Violation("C01:agent-add-without-proof:"+c01WhyKey(k, p, reg, sigValid), fmt.Sprintf("%d identities were added to the requester's agent although %s", adds, c01Why(k, p, reg, sigValid)), k)
 		}
-		if errType(err) != "AllAuthFailed" {
+		if k.NilAttrs {
+			// the handler crashes on such a request (C04 decides the error kind: Panic); here only "not a success"
+			if err == nil {
+				c.Violation("C01:wrong-error:nil", "run reported success for a request without client attributes", k)
+			}
+		} else if errType(err) != "AllAuthFailed" {
 			c.Violation("C01:wrong-error:"+errType(err), fmt.Sprintf("run returned %s (%v), expected AllAuthFailed", errType(err), err), k)
 		}
 	}
@@ -161,6 +174,8 @@ func c01Why(k c01Case, p *csr.ReqParam, reg ssh.PublicKey, sigValid bool) string
 	switch {
 	case p == nil:
 		return "the request parameters are nil"
+	case p.Attrs == nil:
+		return "the request carries no client attributes (no handler can have authenticated it)"
 	case p.NamespacePolicy != common.NoNamespace:
 		return "a foreign namespace was requested"
 	case p.Attrs.HardKey:
@@ -177,6 +192,8 @@ func c01WhyKey(k c01Case, p *csr.ReqParam, reg ssh.PublicKey, sigValid bool) str
 	switch {
 	case p == nil:
 		return "nil-params"
+	case p.Attrs == nil:
+		return "no-client-attributes"
 	case p.NamespacePolicy != common.NoNamespace:
 		return "foreign-namespace"
 	case p.Attrs.HardKey:
@@ -229,6 +246,11 @@ func c01Handlers(c *ev.Ctx, k c01Case) {
 			if h == "A" && firstAccept < 0 {
 				firstAccept = i
 			}
+		case "P":
+			// a handler whose Authenticate crashes: it has NOT authenticated anybody
+			s := &stubHandler{name: fmt.Sprintf("stub%d", i), accept: true, log: &e.log, script: map[string]string{"Authenticate": "panic"}}
+			stubs = append(stubs, s)
+			hs = append(hs, s)
 		case "real":
 			stubs = append(stubs, nil)
 			hs = append(hs, e.handler)
@@ -241,6 +263,31 @@ func c01Handlers(c *ev.Ctx, k c01Case) {
 	err, esc := e.run(defaultParams("alice"), hs)
 	if esc != "" {
 		c.Violation("C01:panic-escaped:"+ev.PanicSite(esc), esc, k)
+		return
+	}
+	// a crashing Authenticate before any handler accepted: the run ends there (C04 decides the error kind); whatever it
+	// returns, nobody proved possession, so nothing may be generated, signed or added
+	crashAt := -1
+	for i, h := range k.Handlers {
+		if h == "P" && (firstAccept < 0 || i < firstAccept) {
+			crashAt = i
+			break
+		}
+	}
+	if crashAt >= 0 {
+		c.Outcome(fmt.Sprintf("handlers/%d/crash-at=%d/%s", len(hs), crashAt, errType(err)))
+		c.Nontrivial(ev.JSON(k))
+		if err == nil {
+			c.Violation("C01:handlers:crashed-authentication-taken-for-success", fmt.Sprintf("handler %d crashed in Authenticate and the run reported success (%v)", crashAt, k.Handlers), k)
+		}
+		if adds := len(e.ua.Ring.AddLog) - pre; len(e.ca.Reqs) != 0 || adds != 0 {
+			c.Violation("C01:handlers:signed-after-crashed-authentication", fmt.Sprintf("handler %d crashed in Authenticate, yet CA calls=%d agent adds=%d (%v)", crashAt, len(e.ca.Reqs), adds, k.Handlers), k)
+		}
+		for i, s := range stubs {
+			if s != nil && s.GenCalls > 0 {
+				c.Violation("C01:handlers:generate-without-auth", fmt.Sprintf("Generate was called on handler %d although the list crashed in Authenticate at %d", i, crashAt), k)
+			}
+		}
 		return
 	}
 	c.Outcome(fmt.Sprintf("handlers/%d/first=%d/%s", len(hs), firstAccept, errType(err)))
@@ -355,7 +402,7 @@ func c01Rotation(c *ev.Ctx, k c01Case) {
 
 func checkC01(c *ev.Ctx) {
 	defer cleanupScratch()
-	c.Rule("real gensign.Run + regular.Handler (built by NewHandler from a JSON config) over a scripted forwarded agent and a recording CA: single runs = full product login{alice,bob,ünï} x policy{NONS,NSOK} x hard-key x params{set,nil} x client claim{self,mallory} x key directory{none,.pub,bare,both,unparsable,other user,directory,another user's key; near-miss file names of other users (other case, prefix, suffix, stray dot/space) for 5 login names} x agent{honest with key, without, signs with another key, signs other data, garbage, empty, failure, close}; handler lists = every list of length 0..3 over {accepting stub, rejecting stub (typed error; in the first two positions also plain, wrapped and by-value errors), real handler} x real handler ok/not; run sequences of length 2 (thorough 3) over {honest, replay, other data, failure}, and key-rotation sequences (registered key file replaced in place between runs; old key must be refused by the long-lived and by a fresh handler, new key accepted). Oracle: independent proof-of-possession predicate; challenge = bytes drawn from the csprng seam in this run. non-trivial = run with a valid proof of possession or a handler list; distinct by case")
+	c.Rule("real gensign.Run + regular.Handler (built by NewHandler from a JSON config) over a scripted forwarded agent and a recording CA: single runs = full product login{alice,bob,ünï} x policy{NONS,NSOK} x hard-key x params{set,nil,without client attributes} x client claim{self,mallory} x key directory{none,.pub,bare,both,unparsable,other user,directory,another user's key; near-miss file names of other users (other case, prefix, suffix, stray dot/space) for 5 login names} x agent{honest with key, without, signs with another key, signs other data, garbage, empty, failure, close}; handler lists = every list of length 0..3 over {accepting stub, rejecting stub (typed error; in the first two positions also plain, wrapped and by-value errors), stub whose Authenticate crashes, real handler} x real handler ok/not; run sequences of length 2 (thorough 3) over {honest, replay, other data, failure}, and key-rotation sequences (registered key file replaced in place between runs; old key must be refused by the long-lived and by a fresh handler, new key accepted). Oracle: independent proof-of-possession predicate; challenge = bytes drawn from the csprng seam in this run. non-trivial = run with a valid proof of possession or a handler list; distinct by case")
 	c.Assume("statistical quality of the OS CSPRNG is trusted; 'fresh' is decided as 'the 64 bytes drawn from crypto/rand during this Authenticate call'", "key files are looked up as '<name>.pub' then '<name>' (documented order)")
 	if c.ReplayCase != nil {
 		var k c01Case
@@ -400,6 +447,15 @@ func checkC01(c *ev.Ctx) {
 			}
 		}
 	}
+	// request parameters without client attributes: no handler can have authenticated such a request
+	for _, pol := range []string{"NONS", "NSOK"} {
+		for _, ag := range []string{"honest-with-key", "honest-without", "sign-other-key", "failure"} {
+			for _, kd := range []string{"pub", "none"} {
+				c01Single(c, c01Case{Kind: "single", LogName: "alice", Policy: pol, NilAttrs: true, KeyDir: kd, Agent: ag, RegType: "ed25519"})
+				n++
+			}
+		}
+	}
 	// every registered key type against every agent behaviour (the quick product above uses Ed25519 keys only)
 	for _, rt := range []string{"rsa", "ecdsa"} {
 		for _, ag := range []string{"honest-with-key", "honest-without", "sign-other-key", "sign-other-data", "garbage", "empty", "failure", "close"} {
@@ -427,7 +483,7 @@ func checkC01(c *ev.Ctx) {
 		if d == 3 {
 			return
 		}
-		for _, h := range []string{"A", "R", "real", "Rplain", "Rvalue", "Rwrapped"} {
+		for _, h := range []string{"A", "R", "real", "Rplain", "Rvalue", "Rwrapped", "P"} {
 			if d >= 2 && len(h) > 1 && h != "real" {
 				continue // the untyped-rejection stubs in the first two positions only (keeps the list count at 172)
 			}
